@@ -403,6 +403,7 @@ func (e *Env) ReportBytes(id, ts uint32, val uint64, signer string, alt int) []b
 
 // Deliver hands a datagram to the report handler synchronously.
 func (e *Env) Deliver(b []byte) {
+	e.T.Emit(J{"a": "Direct"})
 	if p := catch(func() { e.cur().VerifHandleDatagram(b) }); p != "" {
 		e.T.Emit(J{"a": "Panic", "where": "report handler", "what": p})
 	}
